@@ -51,6 +51,7 @@ ASSUMPTIONS = [
     "cacheconc: policies are oracles (admission decision, victims, released cost come from the implementation and are label parameters of the model); the policy contract itself is C14",
     "cacheconc: the background janitor thread is parked (tick 1 h) and maintenance is driven through run_maintenance / cooperative maintenance — the model's `maint` operation also covers the janitor's own cleanup shape (try_lock, limit 256), which is not driven by the tie; the expiry set of the timer wheel (tick-driven, F7) and the TTI sample are oracles read from the implementation",
     "cacheconc: time is the virtual clock of the cfg(excsn_fibre_verif) hook; it advances only through `advance` operations of the programs (any thread, any point of the interleaving); cases that use expiry own the process-global clock (serialised)",
+    "cacheconc: async operations are driven to completion by one worker thread each (an executor whose park / wake go through the scheduler); a case containing an async insert runs with maintenance_chance 2^31 because the async insert's maintenance SIGNAL would wake the real janitor thread, which is not under the scheduler (its pass shape is the model's `maint` call); waiter-queue behaviour of the hybrid lock (writer preference, WRITER_PENDING) is C10's subject and is not in this model",
     "cacheconc: parking_lot mutexes (policies, timer wheel, LoadFuture) are not reported by the lock hook; their critical sections are separated by the named yield points only",
     "cacheconc: delivery of accepted notifications by the notifier thread (channel FIFO, exactly once) is the channel's contract (C01/C02), not modelled here; a full notification channel drops the notification (`sent = false`)",
     "cacheconc: current_cost is an unbounded integer in the model; the u64 the implementation reports is its value mod 2^64 (compared after every step)",
